@@ -173,6 +173,10 @@ class MemStorage:
         if faulty:
             assert self.fault is not None
             raw = corrupt(raw, self.fault)
+        # transient fault: only the FIRST download of this object is cut short (a dropped connection); retries succeed
+        cut = getattr(self, "transient_cut", None)
+        if cut is not None and ev["attempt"] == 1:
+            raw = raw[: max(0, min(len(raw) - 1, int(len(raw) * cut)))]
         return raw
 
 
